@@ -228,4 +228,89 @@ example : IntTime (Float.ofInt (-5)) ∧ IntTime (Float.ofInt 2147483647) ∧
       (Float.ofInt 2147483652).toBits :=
   ⟨⟨-5, by decide, rfl⟩, ⟨2147483647, by decide, rfl⟩, by decide +kernel, by decide +kernel⟩
 
+/-! ### decoded maps: spinners and hold notes with integer times — no law left -/
+
+section
+variable [Trig Float] [Trig Float32]
+
+/-- **spinners of decoded maps, IEEE instances, integer times: no law hypothesis.** Every spinner of every decoded map
+whose start time and duration are integers with the end within the parse limit (`IntSpan`; what a line with integer start
+and end times stores: `intSpan_spinner`) is `RepSpinner`, as soon as its custom sample file name satisfies the file-name
+residual (F21, `|`). -/
+theorem decoded_spinners_representable_ieee_int (bs : List UInt8) (st : BeatmapState Float Float32)
+    (m : Beatmap Float Float32) (h1 : decodeBytes beatmapDecoder bs = .ok st) (h2 : st.finish = .ok m) (mode : GameMode) :
+    ∀ h ∈ m.hitObjects, ∀ sp, h.kind = .spinner sp → FileNameResidual h.samples → IntSpan h.startTime sp.duration →
+      RepSpinner IeeeRep64 IeeeRep32 mode h sp := by
+  intro h hh sp hk hres hint
+  obtain ⟨ht, hst⟩ := C14.decoded_stored bs st m h1 h2 h hh
+  have hok := decoded_objOk bs st m h1 h2 h hh
+  rw [hk] at hst
+  obtain ⟨hpos, _⟩ := hst
+  have hpx : sp.pos.x = (512 : Float32) / 2 := by rw [hpos]
+  have hpy : sp.pos.y = (384 : Float32) / 2 := by rw [hpos]
+  obtain ⟨hstop, hback, _⟩ := intSpan_laws _ _ hint
+  exact ⟨by rw [hpx]; exact objLaws_ieee.spinnerX, by rw [hpy]; exact objLaws_ieee.spinnerY, ⟨ht.2.2, ht⟩, hstop, hback,
+    repSamples_of_ok _ _ hok.samples hres⟩
+
+/-- **hold notes of decoded maps, IEEE instances, integer times: no law hypothesis.** -/
+theorem decoded_holds_representable_ieee_int (bs : List UInt8) (st : BeatmapState Float Float32)
+    (m : Beatmap Float Float32) (h1 : decodeBytes beatmapDecoder bs = .ok st) (h2 : st.finish = .ok m) (mode : GameMode) :
+    ∀ h ∈ m.hitObjects, ∀ ho, h.kind = .hold ho → FileNameResidual h.samples → IntSpan h.startTime ho.duration →
+      RepHold IeeeRep64 IeeeRep32 mode h ho := by
+  intro h hh ho hk hres hint
+  obtain ⟨ht, hst⟩ := C14.decoded_stored bs st m h1 h2 h hh
+  have hok := decoded_objOk bs st m h1 h2 h hh
+  rw [hk] at hst
+  obtain ⟨hx, _⟩ := hst
+  obtain ⟨hstop, _, hback⟩ := intSpan_laws _ _ hint
+  exact ⟨repCoord_of_coordP objLaws_ieee hx, objLaws_ieee.holdY, ⟨ht.2.2, ht⟩, hstop, hback,
+    repSamples_of_ok _ _ hok.samples hres⟩
+
+/-- the residual of one decoded object on the IEEE instances, integer-times form: sliders as before (`PathShapeOk`, F20),
+circles the file-name residual, spinners and holds the file-name residual and integer times. No law. -/
+def ObjResidualInt (h : HitObject Float Float32) : Prop :=
+  match h.kind with
+  | .slider s => SliderResidual IeeeRep64 s
+  | .circle _ => FileNameResidual h.samples
+  | .spinner sp => FileNameResidual h.samples ∧ IntSpan h.startTime sp.duration
+  | .hold ho => FileNameResidual h.samples ∧ IntSpan h.startTime ho.duration
+
+/-- **decoded_objects_representable_ieee_int_partial** — `RepObject` for every object of a decoded `Beatmap<f64/f32>`
+satisfying `ObjResidualInt`; no law hypothesis (`ObjLaws`, `CtrlLaws` are theorems, `DurLaws` is replaced by integrality of
+the times). Partial for the reasons of `decoded_sliders_representable_partial` (`PathShapeOk` assumed). -/
+theorem decoded_objects_representable_ieee_int_partial (bs : List UInt8) (st : BeatmapState Float Float32)
+    (m : Beatmap Float Float32) (h1 : decodeBytes beatmapDecoder bs = .ok st) (h2 : st.finish = .ok m) (mode : GameMode) :
+    ∀ h ∈ m.hitObjects, ObjResidualInt h → RepObject IeeeRep64 IeeeRep32 mode h := by
+  intro h hh hres
+  unfold ObjResidualInt at hres
+  cases hk : h.kind with
+  | circle c =>
+    rw [hk] at hres
+    exact .circle c hk (decoded_circles_representable_ieee bs st m h1 h2 mode h hh c hk hres)
+  | slider s =>
+    rw [hk] at hres
+    obtain ⟨dist, hr⟩ := decoded_sliders_representable_ieee_partial bs st m h1 h2 mode h hh s hk hres
+    exact .slider s dist hk hr
+  | spinner sp =>
+    rw [hk] at hres
+    exact .spinner sp hk (decoded_spinners_representable_ieee_int bs st m h1 h2 mode h hh sp hk hres.1 hres.2)
+  | hold ho =>
+    rw [hk] at hres
+    exact .hold ho hk (decoded_holds_representable_ieee_int bs st m h1 h2 mode h hh ho hk hres.1 hres.2)
+
+/-- **hitobjects_block_accepted_decoded_ieee_int** — C04 for the `[HitObjects]` block of a decoded `Beatmap<f64/f32>`, NO LAW
+HYPOTHESIS: decode any bytes to `m`; if every object satisfies `ObjResidualInt`, `encode_hit_objects m` succeeds, the block
+is `[HitObjects]` followed by one LF-free record line per object, and `parse_hit_objects` accepts every one of these lines
+(end-trimmed) in any decoder state. (The codec laws, `CoordLaws`, `ObjLaws`, `CtrlLaws` are theorems of the instances.) -/
+theorem hitobjects_block_accepted_decoded_ieee_int (bs : List UInt8) (st : BeatmapState Float Float32)
+    (m : Beatmap Float Float32) (h1 : decodeBytes beatmapDecoder bs = .ok st) (h2 : st.finish = .ok m)
+    (hres : ∀ h ∈ m.hitObjects, ObjResidualInt h) :
+    ∃ H : List Str, encodeHitObjects m = .ok (unlines (str "[HitObjects]" :: H)) ∧ RtFile.ListBlockShape H ∧
+      H.length = m.hitObjects.length ∧
+      ∀ st' : HOCore Float Float32, Accepts (parseHitObjectLine m.general.mode) st' (H.map trimEnd) :=
+  hitobjects_block_accepted C02.codecLaws_float_ieee C02.codecLaws_float32_ieee FCO.coordLaws_float m
+    (fun h hh => decoded_objects_representable_ieee_int_partial bs st m h1 h2 m.general.mode h hh (hres h hh))
+
+end
+
 end Rosu.C04
